@@ -22,6 +22,13 @@ for hb in ctx.facts.hir:
                 seen.append([ty, nm])
         if seen:
             out[hb["crate"] + "::" + hb["path"]] = seen
-out = {"functions": sorted(fns), "locals": out}
+sigs = {hb["crate"] + "::" + hb["path"]: [hb["inputs"], hb["output"]] for hb in ctx.facts.hir
+        if hb["crate"] in (VISITOR_CRATE, PLUGIN_CRATE) and not hb.get("mac")}
+roles = {}
+for rname in C.CANON:
+    b = C.role(ctx, rname)
+    if b is not None:
+        roles[rname] = b["path"]
+out = {"functions": sorted(fns), "signatures": sigs, "roles": roles, "locals": out}
 json.dump(out, open(os.path.join(extract.VERIF, "rules", "local_names.json"), "w"), indent=0, sort_keys=True)
 print(len(fns), "functions", sum(len(v) for v in out["locals"].values()), "bindings")
